@@ -195,7 +195,7 @@ func replaceAll(s, old, new string) string {
 			result += new
 			i += len(old) - 1
 		} else {
-			result += string(s[i])
+			result += s[i : i+1] // the byte itself: string(s[i]) would re-encode it as a code point
 		}
 	}
 	return result
